@@ -28,14 +28,22 @@ Theorem C16_inline_outline : forall s c j,
   wf_convb s c = true -> canon_json s c = Ok j -> inline_of s j = Xmi.canon_xmi s c.
 Proof. exact inline_outline. Qed.
 Print Assumptions C16_inline_outline.
+(* both views exist for a well-formed CAS (totality of canon_json and canon_xmi), and the JSON save leaves it unchanged *)
+Theorem C16_inline_outline_total : forall s c, wf_convb s c = true ->
+  exists j x, canon_json s c = Ok j /\ Xmi.canon_xmi s c = Ok x /\ inline_of s j = Ok x.
+Proof. exact inline_outline_total. Qed.
+Print Assumptions C16_inline_outline_total.
+Theorem C16_json_save_leaves_cas : forall L s mode c d c', wf_convb s c = true -> save_json L s mode c = Ok (d, c') -> c' = c.
+Proof. exact save_json_same. Qed.
+Print Assumptions C16_json_save_leaves_cas.
 
-(* XMI -> CAS -> JSON -> CAS: c1 the CAS loaded first, j the JSON document written from it, c1' the same CAS with the ids
-   the save assigned; what the JSON reader builds from j, seen in the XMI view, is the XMI view of c1' (views, sofa data,
-   structures, ids, values, reference structure, offsets, membership) *)
-Theorem C16_xmi_json_xmi : forall L s mode c1 j c1' cc,
+(* XMI -> CAS -> JSON -> CAS: c1 the CAS loaded first (its inlined collections have no id yet), j the JSON document written
+   from it, c1' the same CAS with the ids the save assigned; what the JSON reader builds from j, seen in the XMI view, is
+   the XMI view of c1' (views, sofa data, structures, ids, values, reference structure, offsets, membership); both exist *)
+Theorem C16_xmi_json_xmi : forall L s mode c1 j c1',
   lex_ok L -> save_json L s mode c1 = Ok (j, c1') -> wf_convb s c1' = true -> 0 < c_next_id c1 ->
-  doc_ok_json L s j = true -> initial_view_in c1' = true -> canon_json s c1' = Ok cc ->
-  (do x <- load_json L s j ;; inline_of s x) = Xmi.canon_xmi s c1'.
+  doc_ok_json L s j = true -> initial_view_in c1' = true ->
+  exists x, Xmi.canon_xmi s c1' = Ok x /\ (do y <- load_json L s j ;; inline_of s y) = Ok x.
 Proof. exact xmi_json_xmi. Qed.
 Print Assumptions C16_xmi_json_xmi.
 
@@ -69,11 +77,10 @@ Proof. exact json_xmi_json_denote. Qed.
 Print Assumptions C16_json_xmi_json_denote.
 
 (* the two documents written from one CAS agree: the XMI document denotes the XMI view of what the JSON document denotes *)
-Theorem C16_conversion_documents_agree : forall L s mode (fmt_flt : flt -> string) (parse_flt : string -> option flt) c x c' j c'' jv,
+Theorem C16_conversion_documents_agree : forall L s mode (fmt_flt : flt -> string) (parse_flt : string -> option flt) c x c' j c'',
   lex_ok L -> (forall f, parse_flt (fmt_flt f) = Some f) -> (forall f, Lex.tok_ok (fmt_flt f)) ->
-  Xmi.wf_casb s c = true -> Xmi.save_xmi fmt_flt s c = Ok (x, c') ->
-  save_json L s mode c = Ok (j, c'') -> wf_convb s c'' = true -> 0 < c_next_id c -> canon_json s c'' = Ok jv ->
-  Xmi.canon_xmi s c'' = Xmi.canon_xmi s c ->
+  wf_convb s c = true -> 0 < c_next_id c ->
+  Xmi.save_xmi fmt_flt s c = Ok (x, c') -> save_json L s mode c = Ok (j, c'') ->
   XmiDoc.denote_xmi parse_flt s x = (do jv <- denote_json L s j ;; do v <- inline_of s jv ;; Ok (XmiDoc.norm_xmi s v)).
 Proof. exact conversion_documents_agree. Qed.
 Print Assumptions C16_conversion_documents_agree.
